@@ -115,6 +115,9 @@ LineViolations(e, c2, K2) ==
     \cup V("PodEventKeepsUp",
            e.ev \in {"UpdatePod", "DeletePod"} /\ e.tracked /\
            (\/ \E n \in DOMAIN D.sets : n \notin DOMAIN K2.sets \/ ~(D.sets[n].members \subseteq K2.sets[n].members)
+            \* the address of a deleted pod is in none of the derived sets any more (sets of vanished policies are SyncExact's business)
+            \/ e.ev = "DeletePod" /\ e.obj \in DOMAIN c.pods /\ c.pods[e.obj].ip # "" /\
+               \E n \in (DOMAIN D.sets) \cap (DOMAIN K2.sets) : K2.sets[n].type = "ip" /\ c.pods[e.obj].ip \in K2.sets[n].members
             \/ LET pc == PodChain(e.obj) IN
                IF pc \in DOMAIN D.chains THEN pc \notin DOMAIN K2.chains \/ BagOf(K2.chains[pc]) # BagOf(D.chains[pc])
                ELSE pc \in DOMAIN K2.chains),
